@@ -285,6 +285,8 @@ class TypedNode(Node):
                 f"`before=node` ({before._parent}) "
                 f"must be a child of target node ({self})"
             )
+        if self._children is None:
+            assert before in (None, True, int, False), before
 
         source_node = None
         factory = self._tree._node_factory
@@ -319,7 +321,6 @@ class TypedNode(Node):
 
         children = self._children
         if children is None:
-            assert before in (None, True, int, False)
             self._children = [node]
         elif before is True:  # prepend
             children.insert(0, node)
